@@ -14,7 +14,7 @@ import CSD.Lemmas.IdIter
 import CSD.Lemmas.PFCMeta
 import CSD.Lemmas.RPDACPrefix4
 import CSD.Lemmas.PFCPrefixD
-import CSD.Lemmas.FM8
+import CSD.Lemmas.FM11
 
 namespace CSD.Props.C04
 open CSD
